@@ -27,7 +27,7 @@ import (
 type c04Cfg struct {
 	NT     int    `json:"nt"`     // token interceptors
 	NS     int    `json:"ns"`     // statement interceptors
-	Ex     string `json:"ex"`     // expression interceptors, installation order: P pass-through, R re-entrant
+	Ex     string `json:"ex"`     // expression interceptors, installation order: P pass-through, R re-entrant, D re-entrant through the public building blocks, I re-entrant asking to continue more than once
 	Plugin bool   `json:"plugin"` // installed through Install(plugin) instead of directly
 }
 
@@ -117,6 +117,40 @@ func c04Dispatch(p *parser.Parser) ast.Statement {
 	return p.ParseExpressionStatement()
 }
 
+// c04Prefix: what a plugin does that parses the prefix "itself": it dispatches on the current token to the exported
+// building block of that prefix form (the literal parsers, ParseIdentifier, ParseGroupedExpression,
+// ParseUnaryExpression, ParseArrayLiteral, ParseObjectLiteral, ParseFunctionExpression) and leaves everything else
+// (registered prefix operators, tokens that start no expression) to ParsePrefixExpression.
+func c04Prefix(p *parser.Parser) ast.Expression {
+	switch p.CurrentToken.Type {
+	case token.IDENT:
+		return p.ParseIdentifier()
+	case token.INT:
+		return p.ParseIntegerLiteral()
+	case token.FLOAT:
+		return p.ParseFloatLiteral()
+	case token.STRING:
+		return p.ParseStringLiteral()
+	case token.RAW_STRING:
+		return p.ParseMultiStringLiteral()
+	case token.TRUE, token.FALSE:
+		return p.ParseBooleanLiteral()
+	case token.NULL:
+		return p.ParseNullLiteral()
+	case token.LPAREN:
+		return p.ParseGroupedExpression()
+	case token.LBRACKET:
+		return p.ParseArrayLiteral()
+	case token.LBRACE:
+		return p.ParseObjectLiteral()
+	case token.FUNCTION:
+		return p.ParseFunctionExpression()
+	case token.MINUS, token.NOT, token.INCREMENT, token.DECREMENT:
+		return p.ParseUnaryExpression()
+	}
+	return p.ParsePrefixExpression()
+}
+
 // c04BasePB is the interceptor-free builder of the language of the run in progress.
 func c04BasePB(m Mode) *parser.Builder {
 	pb := newPB(m)
@@ -193,14 +227,25 @@ func c04Build(cfg c04Cfg, m Mode, lg *c04Log) *parser.Builder {
 	}
 	for i := 0; i < len(cfg.Ex); i++ {
 		i := i
-		re := cfg.Ex[i] == 'R'
+		re := cfg.Ex[i]
 		install(func(pb *parser.Builder) {
 			pb.UseExpressionInterceptor(func(p *parser.Parser, next func() ast.Expression) ast.Expression {
 				lg.expr = append(lg.expr, c04Step{who: i, enter: true, pos: p.CurrentToken.Start, lit: p.CurrentToken.Literal})
 				var e ast.Expression
-				if re {
+				switch {
+				case re == 'R':
 					e = p.ParseRemainingExpression(p.ParsePrefixExpression())
-				} else {
+				case re == 'D':
+					e = p.ParseRemainingExpression(c04Prefix(p))
+				case re == 'I':
+					// continuing is idempotent: a level nothing binds at continues nothing, and asking again once the
+					// remaining expression has been parsed adds nothing
+					e = p.ParseRemainingExpressionWithPrecedence(p.ParsePrefixExpression(), 1000)
+					e = p.ParseRemainingExpression(e)
+					if !isNilNode(e) {
+						e = p.ParseRemainingExpression(e)
+					}
+				default:
 					e = next()
 				}
 				lg.expr = append(lg.expr, c04Step{who: i, node: e})
@@ -619,7 +664,7 @@ func c04Check(src string, cfg c04Cfg, m Mode, base *c04Base, wantSteps *[2]strin
 		return k, d
 	}
 	active := len(cfg.Ex)
-	if i := strings.IndexByte(cfg.Ex, 'R'); i >= 0 {
+	if i := strings.IndexAny(cfg.Ex, "RDI"); i >= 0 {
 		active = i + 1
 	}
 	k, d, esteps := c04Order(lg.expr, active, "expr")
@@ -715,7 +760,7 @@ func c04Cfgs(level int) []c04Cfg {
 	var cs []c04Cfg
 	switch level {
 	case 0: // cheapest: the configurations that exercise re-entrance and ordering at depth
-		return []c04Cfg{{1, 1, "R", false}, {0, 2, "RR", false}, {1, 2, "PRP", true}, {0, 0, "PPR", false}}
+		return []c04Cfg{{1, 1, "R", false}, {0, 2, "D", false}, {1, 2, "PIP", true}, {0, 0, "PPR", false}}
 	}
 	for _, nt := range []int{1, 2, 8} {
 		cs = append(cs, c04Cfg{nt, 0, "", false})
@@ -738,6 +783,7 @@ func c04Cfgs(level int) []c04Cfg {
 	}
 	cs = append(cs,
 		c04Cfg{0, 0, "PPPPPPPP", false}, c04Cfg{0, 0, "RRRRRRRR", false}, c04Cfg{0, 0, "PPPPPPPR", false}, c04Cfg{0, 0, "PRPRPRPR", true},
+		c04Cfg{0, 0, "D", false}, c04Cfg{0, 0, "I", false}, c04Cfg{0, 0, "PD", false}, c04Cfg{0, 0, "DP", true}, c04Cfg{1, 1, "PPI", false}, c04Cfg{0, 2, "RR", false},
 		c04Cfg{2, 2, "PR", false}, c04Cfg{2, 2, "PR", true}, c04Cfg{1, 3, "RPR", true}, c04Cfg{8, 8, "PPPPPPPR", false}, c04Cfg{3, 1, "PP", true},
 	)
 	if level >= 2 {
@@ -799,7 +845,7 @@ func c04Extended(c *core.Ctx) {
 	if c.Thorough() {
 		n = 4
 	}
-	cfgs := []c04Cfg{{0, 0, "P", false}, {0, 0, "R", false}, {1, 1, "PR", false}, {0, 2, "RP", true}, {0, 0, "PPR", false}}
+	cfgs := []c04Cfg{{0, 0, "P", false}, {0, 0, "R", false}, {1, 1, "PD", false}, {0, 2, "IP", true}, {0, 0, "PPR", false}}
 	frames := []string{"%s", "let v = %s", "f(%s, %s)", "function g() { return %s }\nx = [%s]"}
 	for lvl := 1; lvl <= 12; lvl++ {
 		for L := 1; L <= n; L++ {
@@ -837,7 +883,7 @@ func c04Extended(c *core.Ctx) {
 func c04PlugLang(c *core.Ctx) {
 	c04Ext = c04ExtPlugLang
 	defer func() { c04Ext = 0 }()
-	cfgs := []c04Cfg{{0, 1, "", false}, {1, 2, "P", false}, {0, 3, "R", true}, {0, 0, "PR", false}, {2, 0, "", false}}
+	cfgs := []c04Cfg{{0, 1, "", false}, {1, 2, "P", false}, {0, 3, "R", true}, {0, 0, "PD", false}, {2, 0, "I", false}}
 	n := 3
 	if c.Thorough() {
 		n = 4
